@@ -33,15 +33,18 @@ def sh(cmd, cwd=None, timeout=3600, env=None):
 # name -> (property, kind, description, [(old, new, count)])
 MUT = {
     # ------------------------------------------------------------- C16
-    "m16-dispatch-wrong-field": ("C16", "mutation", "PUBLISHED dispatched on msg.Publication instead of msg.Request", [
+    "x16-dispatch-wrong-field": ("C16", "mutation (suite red: caught by the tests as well)", "PUBLISHED dispatched on msg.Publication instead of msg.Request", [
         ("\tcase *wamp.Published:\n\t\tc.runSignalReply(msg, msg.Request)", "\tcase *wamp.Published:\n\t\tc.runSignalReply(msg, msg.Publication)", 1)]),
-    "m16-progress-after-return": ("C16", "mutation", "Call no longer waits for the progress goroutine (<-progDone dropped)", [
+    "m16-fallback-to-only-waiter": ("C16", "mutation", "a reply with an unknown request id is handed to the only waiting call", [
+        ("\tw, ok = c.awaitingReply[requestID]\n\tc.sess.Unlock()\n\tif !ok {\n\t\tc.log.Println(\"Received\", msg.MessageType(), requestID,",
+         "\tw, ok = c.awaitingReply[requestID]\n\tif !ok && len(c.awaitingReply) == 1 {\n\t\tfor _, w = range c.awaitingReply {\n\t\t\tok = true\n\t\t}\n\t}\n\tc.sess.Unlock()\n\tif !ok {\n\t\tc.log.Println(\"Received\", msg.MessageType(), requestID,", 1)]),
+    "m16-progress-after-return": ("C16", "mutation", "Call waits for the progress goroutine only when it got a reply (not on cancellation / timeout)", [
         ("\tif progcb != nil {\n\t\tclose(progChan)\n\t\t<-progDone\n\t}\n\n\tif err != nil {\n\t\treturn nil, err\n\t}\n\n\tswitch msg := msg.(type) {\n\tcase *wamp.Result:\n\t\tabortMsg, err := c.prepareCallResultMessage(msg)",
-         "\tif progcb != nil {\n\t\tclose(progChan)\n\t}\n\n\tif err != nil {\n\t\treturn nil, err\n\t}\n\n\tswitch msg := msg.(type) {\n\tcase *wamp.Result:\n\t\tabortMsg, err := c.prepareCallResultMessage(msg)", 2)]),
+         "\tif progcb != nil {\n\t\tclose(progChan)\n\t\tif err == nil {\n\t\t\t<-progDone\n\t\t}\n\t}\n\n\tif err != nil {\n\t\treturn nil, err\n\t}\n\n\tswitch msg := msg.(type) {\n\tcase *wamp.Result:\n\t\tabortMsg, err := c.prepareCallResultMessage(msg)", 2)]),
     "m16-cancel-mode-hardcoded": ("C16", "mutation", "CANCEL always sent with mode killnowait", [
         ("Options: wamp.SetOption(nil, wamp.OptMode, c.cancelMode),", "Options: wamp.SetOption(nil, wamp.OptMode, wamp.CancelModeKillNoWait),", 1)]),
-    "m16-stale-invocation-rerun": ("C16", "mutation", "IsNewRecvID result ignored: a repeated INVOCATION id starts the handler again", [
-        ("\t\tif !c.sess.UpdateLastRecvIDLocked(reqID) {\n\t\t\tc.sess.Unlock()", "\t\tif c.sess.UpdateLastRecvIDLocked(reqID); false {\n\t\t\tc.sess.Unlock()", 1)]),
+    "m16-stale-invocation-rerun": ("C16", "mutation", "an INVOCATION with an OLDER request id is no longer ignored (only the latest id is)", [
+        ("\t\tif !c.sess.UpdateLastRecvIDLocked(reqID) {\n\t\t\tc.sess.Unlock()", "\t\tif !c.sess.UpdateLastRecvIDLocked(reqID) && c.sess.IsNewRecvID(reqID+1) {\n\t\t\tc.sess.Unlock()", 1)]),
     "m16-error-with-registration-id": ("C16", "mutation", "ERROR for a failed invocation carries the registration id", [
         ("\t\t\t\terrMsg := &wamp.Error{\n\t\t\t\t\tType:        wamp.INVOCATION,\n\t\t\t\t\tRequest:     reqID,",
          "\t\t\t\terrMsg := &wamp.Error{\n\t\t\t\t\tType:        wamp.INVOCATION,\n\t\t\t\t\tRequest:     cliInvocation.registration,", 1)]),
